@@ -171,7 +171,7 @@ Qed.
 
 (* ---------------------------------------------------------------- reshaped_for_view *)
 Theorem reshaped_for_view_denotes {A} (s : list A) v shape v' t :
-  denote s v = Some t -> reshaped_for_view v shape = Ok v' -> denote s v' = ref_reshape t shape.
+  denote s v = Some t -> reshaped_for_view false v shape = Ok v' -> denote s v' = ref_reshape t shape.
 Proof.
   intros H Hr. unfold reshaped_for_view in Hr.
   destruct (is_contiguous false (v_dims v)) eqn:Ec; cbn [negb] in Hr; [|discriminate].
@@ -186,7 +186,7 @@ Qed.
 (* LengthMismatch is reported exactly when the reference reshape is undefined (for a
    contiguous source); NotContiguous is the documented precondition of view reshapes *)
 Theorem reshaped_for_view_error {A} (s : list A) v shape e t :
-  denote s v = Some t -> reshaped_for_view v shape = Err e ->
+  denote s v = Some t -> reshaped_for_view false v shape = Err e ->
   (e = NotContiguous /\ is_contiguous false (v_dims v) = false)
   \/ (e = LengthMismatch /\ ref_reshape t shape = None).
 Proof.
